@@ -24,6 +24,9 @@ CONSTANTS Streams, Callers, MaxFaults, MaxDialFails, MaxResumeNg, WatcherByEpoch
           EpochBeforeResume,   \* TRUE = the stream records the reconnect epoch before it reads c.wireConn and starts the resume exchange (as coded);
                                \* FALSE = after the resume response (a variant that misses an outage decided during the exchange)
           HalfBroken,          \* TRUE = the environment may also break only the write direction of a link (writes fail, reads are still delivered)
+          RetryStopsOnClosedErr,  \* FALSE as coded: the redial loop ends only when the connection's status is Closed; TRUE = it also ends when
+                               \* an attempt fails with the "connection closed" error (what a transport lost during the handshake reports):
+                               \* the supervisor goroutine ends while the connection is still Reconnecting (SupervisorAlive violated)
           MaxConflicts,        \* number of resume requests the broker answers with ResumeRequestConflict ("try again")
           ConflictFatal,       \* FALSE = the resume request is repeated after a conflict (as repaired); TRUE = the repeated attempt fails locally
                                \* and the stream is closed (downstreams at the pinned commit: the alias was subscribed a second time)
@@ -118,6 +121,12 @@ DialFail ==
                            !.dialsAfterClose = IF s.closeRet THEN @ + 1 ELSE @]
        ELSE s' = [s EXCEPT !.tokens = @ + 1, !.dials = @ + 1, !.dialFails = @ + 1,
                            !.dialsAfterClose = IF s.closeRet THEN @ + 1 ELSE @]
+    /\ Say([a |-> "dial", ok |-> FALSE])
+\* an attempt whose transport came up and was lost during the connect handshake: the error is the "connection closed" sentinel
+DialFailClosedErr ==
+    /\ RetryStopsOnClosedErr /\ s.main = "recDial" /\ s.dialFails < MaxDialFails
+    /\ s' = [s EXCEPT !.tokens = @ + 1, !.dials = @ + 1, !.dialFails = @ + 1, !.main = "dead", !.mu = "none",
+                      !.dialsAfterClose = IF s.closeRet THEN @ + 1 ELSE @]
     /\ Say([a |-> "dial", ok |-> FALSE])
 \* c.wireConn = res; CompareAndSwap(Reconnecting, Connected) else panic (as coded)
 RecSwap ==
@@ -243,7 +252,7 @@ CloseJoin ==
     /\ Quiet
 
 Next ==
-    \/ HandlerClose \/ CloseJoin
+    \/ HandlerClose \/ CloseJoin \/ DialFailClosedErr
     \/ LinkDown \/ WriteBreaks \/ WireSelfClose \/ RunExitsErr \/ RunExitsClosed \/ RecLock \/ DialOk \/ DialFail \/ RecSwap \/ Notify
     \/ \E y \in Streams : WatchCheck(y) \/ WaitConnCheck(y) \/ ResumeOk(y) \/ ResumeNg(y) \/ ResumeCut(y) \/ ResumeConflict(y)
     \/ \E p \in Callers : ApiCall(p) \/ SendWaitCheck(p) \/ SendCtxDone(p) \/ SendLock(p) \/ SendOk(p) \/ SendFailsClosed(p) \/ SendFailsDead(p) \/ SendRetry(p)
@@ -273,6 +282,8 @@ NoDialAfterClose == s.dialsAfterClose = 0
 NoCallerParkedWhenClosed == \A p \in Callers : ~(s.cs = "closed" /\ s.ca[p].pc = "waitConn" /\ s.ca[p].w = "parked")
 \* C10: no goroutine left behind: no stream supervisor parked forever on a Closed connection
 NoSupervisorParkedWhenClosed == \A y \in Streams : ~(s.cs = "closed" /\ s.st[y].pc = "waitConn" /\ s.st[y].w = "parked")
+\* C05: the goroutine that re-establishes the connection lives as long as the connection is not Closed
+SupervisorAlive == s.main = "dead" => (s.cs = "closed" \/ s.panic)
 \* C05: a conflict answer is not a refusal: no stream is closed because of it
 ConflictNeverFatal == \A y \in Streams : ~s.st[y].conflictClosed
 \* C10: a Close issued from the Disconnected handler returns (and so does the user's Close): nobody waits for the goroutine it runs on
